@@ -16,7 +16,7 @@ from harness.broker_driver import Scenario
 BACKENDS = ["inmem", "redis", "rabbit"]
 REDIS_SHARED = {"n+n", "topics", "n+d", "same-due", "same-due-topics"}
 ALLCHK = ["fifo", "early", "latency", "ttl", "holder", "content"]
-CLAUSES = {"C01": ["holder", "route"], "C05": ["early", "latency"], "C12": ["ttl"], "C14": ["holder"], "C15": ["fifo", "starve"], "C07": ["content"]}
+CLAUSES = {"C01": ["holder", "route", "content"], "C05": ["early", "latency"], "C12": ["ttl"], "C14": ["holder"], "C15": ["fifo", "starve"], "C07": ["content"]}
 # in-memory consumer: due messages are moved every UPDATE_DELAYED_EVERY of idle polling (+ poll period)
 def inmem_latency_us():
     from repid.connections.in_memory.consumer import _InMemoryConsumer
@@ -61,6 +61,7 @@ FAMILIES = {
     "backlog-directed": "directed",
     "dreject-directed": "directed",
     "twoside-directed": "directed",
+    "requeue-directed": "directed",
     # broker maintenance (run when any client connects or disconnects) while messages with short, default and day-long execution
     # timeouts are in flight with live consumers: nothing is taken away from a live holder before its timeout
     "maint": ([("q1", None, "NORMAL")], ["ta"],
@@ -154,6 +155,22 @@ def directed_twoside():
     return out
 
 
+def directed_requeue():
+    """a held message is re-queued (new payload and parameters under the same id), once or twice, with and without a delay, and
+    consumed again: what arrives is what was re-queued last"""
+    out = []
+    all_w = {"enq": 1, "consume": 1, "requeue": 1, "ack": 1, "sleep": 1, "finish": 1}
+    for delays in ([None], [-5], [200], [None, 200], [200, None]):
+        for n in (1, 2):
+            ops = [("start", 0), ("enqx", "ta", None, None), ("consume", 0)]
+            for _ in range(n):
+                ops += [("requeue", 0, 0), ("sleep", 400), ("consume", 0)]
+            ops += [("ack", 0, 0), ("consume", 0)]
+            out.append(dict(seed=8300 + len(out), consumers=[("q1", None, "NORMAL")], topics=["ta"], script=ops, weights=all_w,
+                            delays_ms=delays, ttls_ms=[None], consume_tmo_ms=[600], max_ids=3, delay_kind="net", no_inject=True))
+    return out
+
+
 def directed_maint():
     """a message with execution timeout T is held by a live consumer for w seconds; other clients connect / disconnect
     (maintenance) meanwhile; then it is settled, and a second one goes through: nothing is taken from a live holder"""
@@ -170,12 +187,12 @@ def directed_maint():
 
 
 PER_PROPERTY = {
-    "C01": ["n", "n+x", "n+d", "n+n", "topics", "2q", "same-due", "same-due-topics", "flush"],
+    "C01": ["n", "n+x", "n+d", "n+n", "topics", "2q", "same-due", "same-due-topics", "requeue-directed", "flush"],
     "C05": ["delay", "latency", "due-behind", "backlog-directed", "dreject-directed", "n+d", "same-due"],
     "C12": ["ttl", "n+x", "n"],
     "C14": ["n+n", "topics", "n+x", "2q", "maint", "maint-directed", "twoside-directed"],
     "C15": ["fifo1", "fifoprio", "fifo-ret", "starve", "pause", "pause-directed", "n"],
-    "C07": ["n", "n+x", "n+d"],
+    "C07": ["n", "n+x", "n+d", "requeue-directed"],
 }
 
 
@@ -291,7 +308,7 @@ def run(pid: str, tier: str, seed: int, *, replay: dict | None = None) -> int:
                 if FAMILIES[fam] == "directed":
                     scs += [dict(sc, backend=be) for sc in {"pause-directed": directed_pause, "maint-directed": directed_maint,
                                                             "backlog-directed": directed_backlog, "dreject-directed": directed_dreject,
-                                                            "twoside-directed": directed_twoside}[fam]()
+                                                            "twoside-directed": directed_twoside, "requeue-directed": directed_requeue}[fam]()
                             if not (fam == "backlog-directed" and be == "rabbit")]   # (RabbitMQ: finding rabbit-foreign-topic-blocks, owned by C11)
                     continue
                 consumers, topics, extra = FAMILIES[fam]
